@@ -37,8 +37,33 @@ theorem gen_default_constants :
     ∧ genField "depression" = some (18530 / 65037) ∧ genField "Dh" = some 333550
     ∧ genField "height" = some (1 / 100) ∧ genField "diameter" = some (1 / 100)
     ∧ genField "lambda_w" = some (299 / 500) ∧ genField "lambda_i" = some (9 / 4)
-    ∧ genField "lambda_s" = some (63 / 500) ∧ genField "b" = some (293 / 10) := by
+    ∧ genField "lambda_s" = some (63 / 500) ∧ genField "b" = some (293 / 10)
+    ∧ genField "a" = some 29 ∧ genField "c" = some 1 := by
   decide +kernel
+
+/-- constant `k` of the generated default as a real number (`0` if absent) -/
+noncomputable def gR (k : String) : ℝ := (((genField k).getD 0 : ℚ) : ℝ)
+
+/-- **stated against the generated values directly**: every constant of `RunBounds.qDef` read by a hypothesis
+of the registered theorems IS the value `calculateDerived(defaultConfig)[k]` (`Kshelf = 50` is not a
+configuration constant: it is the default argument `k["s0"]` of `Snowing.__init__`) -/
+theorem qDef_eq_generated :
+    RunBounds.qDef.const.A = gR "A" ∧ RunBounds.qDef.const.V = gR "V" ∧ RunBounds.qDef.const.rho_l = gR "rho_l"
+    ∧ RunBounds.qDef.const.mass = gR "mass" ∧ RunBounds.qDef.const.mass_water = gR "mass_water"
+    ∧ RunBounds.qDef.const.mass_solute = gR "mass_solute" ∧ RunBounds.qDef.const.cp_w = gR "cp_w"
+    ∧ RunBounds.qDef.const.cp_i = gR "cp_i" ∧ RunBounds.qDef.const.cp_s = gR "cp_s"
+    ∧ RunBounds.qDef.const.cp_solution = gR "cp_solution" ∧ RunBounds.qDef.const.solid_fraction = gR "solid_fraction"
+    ∧ RunBounds.qDef.const.T_eq = gR "T_eq" ∧ RunBounds.qDef.const.k_f = gR "k_f" ∧ RunBounds.qDef.const.M_s = gR "M_s"
+    ∧ RunBounds.qDef.const.depression = gR "depression" ∧ RunBounds.qDef.const.Dh = gR "Dh"
+    ∧ RunBounds.qDef.const.height = gR "height" ∧ RunBounds.qDef.const.diameter = gR "diameter"
+    ∧ RunBounds.qDef.const.lambda_w = gR "lambda_w" ∧ RunBounds.qDef.const.lambda_i = gR "lambda_i"
+    ∧ RunBounds.qDef.const.lambda_s = gR "lambda_s" ∧ RunBounds.qDef.const.b = gR "b"
+    ∧ RunBounds.qDef.const.a = gR "a" ∧ RunBounds.qDef.const.c = gR "c" := by
+  obtain ⟨h1, h2, h3, h4, h5, h6, h7, h8, h9, h10, h11, h12, h13, h14, h15, h16, h17, h18, h19, h20, h21, h22,
+    h23, h24⟩ := gen_default_constants
+  simp only [gR, h1, h2, h3, h4, h5, h6, h7, h8, h9, h10, h11, h12, h13, h14, h15, h16, h17, h18, h19, h20, h21,
+    h22, h23, h24, Option.getD_some, RunBounds.qDef]
+  norm_num
 
 /-- **the default `SnowIn` of the non-vacuity witnesses is the generated default**: every constant of
 `RunBounds.qDef` used by a hypothesis equals (as a real number) the constant the generated
